@@ -183,3 +183,78 @@ func queryMutants(rng *rand.Rand, corpus []string, perText int, structural bool)
 	}
 	return out
 }
+
+// ---------------------------------------------------------------------------
+// Typed constants in every constant slot (operator x slot x type class): the
+// semantic analyzer evaluates these expressions at compile time and then reads
+// the value with a type-specific accessor, so every slot is tried with a
+// constant of every primitive type class (through casts, constant expressions
+// and const declarations), not only with what the corpus happens to contain.
+
+type constClass struct {
+	Name  string
+	Exprs []string
+}
+
+var constClasses = []constClass{
+	{"signed", []string{"2", "int8(2)", "int16(2)", "int32(2)", "int64(2)", "-1", "0", "int64(-9223372036854775808)", "9223372036854775807"}},
+	{"unsigned", []string{"uint8(2)", "uint16(2)", "uint32(2)", "uint64(2)", "uint8(0)", "uint64(18446744073709551615)"}},
+	{"float", []string{"2.", "float16(2)", "float32(2)", "float64(2)", "1e308", "NaN", "-Inf", "0.5"}},
+	{"duration", []string{"2h", "duration(2)", "-1s", "0s", "duration(\"1h\")"}},
+	{"time", []string{"2020-01-02T03:04:05Z", "time(2)", "time(\"2020-01-02T03:04:05Z\")"}},
+	{"string", []string{"\"2\"", "\"a\"", "\"\"", "string(2)", "f\"{2}\""}},
+	{"bool", []string{"true", "false", "bool(1)"}},
+	{"null", []string{"null", "null(uint8)", "null(int64)", "null(string)", "null(duration)"}},
+	{"ip", []string{"1.2.3.4", "ip(\"1.2.3.4\")", "::1"}},
+	{"net", []string{"10.0.0.0/8", "net(\"10.0.0.0/8\")"}},
+	{"bytes", []string{"0x02", "bytes(\"a\")", "0x"}},
+	{"type", []string{"<int64>", "<{a:int64}>", "typeof(2)"}},
+	{"error", []string{"error(2)", "error(\"x\")", "missing(a)"}},
+	{"container", []string{"[2]", "{a:2}", "|[2]|", "|{2:2}|", "[]", "{}"}},
+	{"constexpr", []string{"uint32(2)+uint32(1)", "2+3", "int8(2)*int8(3)", "uint8(1)-uint8(2)", "1/0", "uint8(1)/uint8(0)", "2h+1s", "\"a\"+\"b\"", "2>1", "-uint8(1)", "uint8(2)+2", "len(\"ab\")", "2 ? 1 : 3", "uint64(2)%uint64(2)"}},
+	{"path", []string{"a", "this", "a.b", "this[\"a\"]"}},
+}
+
+// constSlots: query templates with %s where the language wants (or folds) a constant.
+var constSlots = []string{
+	"head %s", "tail %s", "top %s a", "top %s", "sort a | head %s", "top %s -flush a",
+	"yield this[%s]", "yield a[%s]", "yield a[%s:%s]", "yield a[:%s]", "yield a[%s:]",
+	"yield every(%s)", "count() by every(%s)", "count() by bucket(ts, %s)", "yield bucket(%s, %s)",
+	"yield grep(%s)", "yield grep(%s, a)", "yield regexp(%s, a)", "yield regexp_replace(a, %s, %s)",
+	"yield cast(a, %s)", "yield shape(a, %s)", "yield strftime(%s, ts)", "yield split(a, %s)", "yield join(a, %s)",
+	"yield %s", "where %s", "assert %s", "put x:=%s", "cut x:=%s", "yield {a:%s}.a", "yield [%s][%s]", "yield a in %s", "yield %s in a",
+	"yield uint8(%s)", "yield int64(%s)", "yield float32(%s)", "yield time(%s)", "yield duration(%s)", "yield ip(%s)", "yield net(%s)", "yield bytes(%s)", "yield string(%s)", "yield bool(%s)",
+	"yield len(%s)", "yield round(%s)", "yield pow(%s, %s)", "yield abs(%s)", "yield ceil(%s)", "yield hex(%s)", "yield base64(%s)", "yield lower(%s)", "yield trim(%s)", "yield quiet(%s)", "yield typeof(%s)", "yield kind(%s)", "yield has(%s)", "yield coalesce(%s, a)", "yield nameof(%s)", "yield network_of(%s)", "yield network_of(%s, %s)", "yield cidr_match(%s, a)", "yield now() - %s", "yield date_part(%s, ts)", "yield levenshtein(%s, a)", "yield flatten(%s)", "yield unflatten(%s)", "yield fields(%s)", "yield is(%s)", "yield is(a, %s)", "yield parse_zson(%s)", "yield parse_uri(%s)", "yield replace(a, %s, %s)", "yield rune_len(%s)", "yield compare(%s, a)", "yield map(%s, f)", "yield error(%s)", "yield under(%s)", "yield sqrt(%s)", "yield log(%s)", "yield floor(%s)", "yield crop(a, %s)", "yield fill(a, %s)", "yield order(a, %s)", "yield fit(a, %s)",
+	"switch %s (case %s => pass default => pass)", "switch (case %s => pass)", "over a with b=%s => (yield b)", "over %s",
+	"op f(x): (head x) f(%s)", "op f(x): (top x a) f(%s)", "op f(x): (yield x) f(%s)", "op f(x, y): (yield a[x:y]) f(%s, %s)",
+	"func g(x): (x+1) yield g(%s)", "const N = %s yield N", "type T = %s yield <T>",
+	"summarize count() by %s", "summarize max(%s)", "summarize any(a) where %s", "summarize c:=count() with -limit 2 | head %s", "count() by a | sort -r %s",
+	"sample %s", "merge %s", "sort %s", "drop %s", "fuse | head %s", "uniq | tail %s", "yield a::%s", "yield a | head %s | tail %s",
+	"join on a=%s", "from ( pass => head %s )", "fork (=> head %s => tail %s)", "yield a ?: %s", "yield %s ? 1 : 2", "yield a[%s][%s]",
+	"search %s", "? %s", "a==%s", "not %s", "%s", "yield -%s", "yield !%s", "yield %s + %s", "yield %s / %s", "yield %s %% %s", "yield %s < %s", "yield %s ~ %s",
+}
+
+// typedConstQueries builds the family.  full: every slot x every expression of every class (and the
+// same through a const declaration); otherwise every slot x one representative of every class, the
+// representative rotating with (seed + slot index) so that different seeds meet different members.
+func typedConstQueries(seed int64, full bool) []Mutant {
+	var out []Mutant
+	fill := func(tmpl, e string) string { return strings.ReplaceAll(tmpl, "%s", e) }
+	for si, slot := range constSlots {
+		tmpl := strings.ReplaceAll(slot, "%%", "%")
+		for ci, cl := range constClasses {
+			exprs := cl.Exprs
+			if !full {
+				exprs = []string{cl.Exprs[(int(seed)+si+ci)%len(cl.Exprs)]}
+			}
+			for ei, e := range exprs {
+				out = append(out, Mutant{Class: "const-slot", Where: cl.Name, Note: slot, Data: []byte(fill(tmpl, e))})
+				// the same constant through a const declaration (not for templates that declare things themselves)
+				if (full || (si+ci+ei+int(seed))%3 == 0) && cl.Name != "path" && !strings.HasPrefix(slot, "const ") && !strings.HasPrefix(slot, "type ") {
+					out = append(out, Mutant{Class: "const-ref", Where: cl.Name, Note: slot, Data: []byte("const K = " + e + " " + fill(tmpl, "K"))})
+				}
+			}
+		}
+	}
+	return out
+}
